@@ -203,6 +203,10 @@ def check(ctx):
     ctx.oblige("R-C18.5", "CLexer._error calls the error callback", ok)
     if not ok:
         ctx.violation("R-C18.5", "error-not-forwarded", "CLexer._error does not call self.error_func", file=lx.rel, function="CLexer._error")
+    # characters that are not white space in C must not be skipped between tokens (they are "a character sequence that is not a C token"): the
+    # white-space rule of C01 decides which characters the scanning loop skips
+    from . import c01 as _c01
+    _c01.white_space(ctx, "R-C18.5", only_nonspace=True)
     # "rejected with ParseError": the rejection of malformed input must not surface as another exception type (an AttributeError at the
     # end of a truncated input is not a rejection the caller can handle) - the escape analysis of C06 decides that for every path
     from . import share
